@@ -522,14 +522,17 @@ def _file_worlds(tier: str):
     import itertools
 
     subsets = [tuple(m for m, bit in zip(DOC_MARKERS, bits) if bit) for bits in itertools.product((0, 1), repeat=5)]
-    placements = ["", "archive/"] + (["model/sub/"] if tier == "thorough" else [])
+    # (torch names the folder inside the archive after the file: `.ckpt.pt` gives `.ckpt/...`, a dot-prefixed folder)
+    placements = ["", "archive/", ".ckpt/"] + (["model/sub/"] if tier == "thorough" else [])
     for tar in ("no", "legacy-tar", "other-tar"):
         for pk in (False, True):
             for mar in (False, True):
                 for sub in subsets:
                     for pl in placements:
                         names = [pl + m for m in sub] + [("archive/" if not pl else pl) + m for m in ALWAYS_MEMBERS] + (MAR_MEMBERS if mar else [])
-                        yield {"torch_zip": True, "std_zip": True, "tar": tar, "pickle": pk, "mar": mar, "subset": sub, "names": names, "label": f"torch-zip markers={list(sub)} at '{pl}'"}
+                        # what the version record says is not part of the documented table: any value torch accepts
+                        for vtext in ((b"3\n", b"10\n") if ("version" in sub and tar == "no" and not pk and not mar) else (b"3\n",)):
+                            yield {"torch_zip": True, "std_zip": True, "tar": tar, "pickle": pk, "mar": mar, "subset": sub, "names": names, "version_text": vtext, "label": f"torch-zip markers={list(sub)} at '{pl}'" + (f", version record {vtext!r}" if vtext != b"3\n" else "")}
                 # a zip that torch's reader does not accept (not at offset 0): never classified from the table
                 yield {"torch_zip": False, "std_zip": True, "tar": tar, "pickle": pk, "mar": mar, "subset": (), "names": ["archive/" + m for m in DOC_MARKERS] + (MAR_MEMBERS if mar else []), "label": "zip with leading junk (all five markers present)"}
             yield {"torch_zip": False, "std_zip": False, "tar": tar, "pickle": pk, "mar": False, "subset": (), "names": None, "label": "not a zip"}
@@ -564,6 +567,15 @@ def check_table_worlds(repo: Repo, rep: Report, tier: str):
             z.fields["()namelist"] = lambda: list(_w["names"])
             z.fields["()infolist"] = lambda: [Record("ZipInfo", {"filename": n}) for n in _w["names"]]
             z.fields["()close"] = lambda: None
+
+            def content(name, *a_, **k_):
+                nm = name.fields["filename"] if isinstance(name, Record) else name
+                if nm not in _w["names"]:
+                    raise PyRaise("KeyError")
+                return _w.get("version_text", b"3\n") if nm.split("/")[-1] == "version" else b"little" if nm.endswith("byteorder") else b"\x80\x02}."
+
+            z.fields["()read"] = content
+            z.fields["()open"] = lambda name, *a_, **k_: __import__("io").BytesIO(content(name))
             return z
 
         special = {
